@@ -60,8 +60,25 @@ func c10Docs() (a, b []index.Document) {
 		{Name: "b/y.txt", Branches: []string{"HEAD"}, Content: []byte("foo bar from repo two\n")},
 		{Name: "w.go", Branches: []string{"HEAD"}, Content: []byte("func Bar() {}\n// foo\n"),
 			Symbols: []index.DocumentSection{{Start: 5, End: 8}}, SymbolsMetaData: []*zoekt.Symbol{{Sym: "Bar", Kind: "function"}}},
+		// the last two documents are added in both orders (insertion orders 0 and 1 of this repository):
+		// one that the builder rejects for having more than TrigramMax (20000) distinct trigrams and an
+		// ordinary one that is long enough to be checked against that limit at all
+		{Name: "noisy.txt", Branches: []string{"HEAD"}, Content: c10Noisy()},
+		{Name: "plainlong.txt", Branches: []string{"HEAD"}, Content: []byte(strings.Repeat("foo plain text bar\n", 1200))},
 	}
 	return
+}
+
+// c10Noisy has more than 20000 distinct trigrams.
+func c10Noisy() []byte {
+	var sb strings.Builder
+	for i := 0; i < 26000; i++ {
+		sb.WriteByte(byte('a' + i%26))
+		sb.WriteByte(byte('a' + (i/26)%26))
+		sb.WriteByte(byte('a' + (i/676)%26))
+		sb.WriteByte(byte('A' + i%7))
+	}
+	return []byte(sb.String())
 }
 
 var c10QueryStrings = []string{
@@ -373,7 +390,8 @@ func TestVerifC10(t *testing.T) {
 			return
 		}
 		orderA := c10Perm(len(docsA), c.order)
-		orderB := c10Perm(len(docsB), c.order%2)
+		// both orders of beta's last two documents are used (c.order itself is a multiple of 30 or 60)
+		orderB := c10Perm(len(docsB), (c.order/30+c.order/60+c.order)%2)
 		obs, nShards, err := buildAndObserve(orderA, orderB, c.shardMax, c.par, c.compound)
 		builds.Add(1)
 		what := fmt.Sprintf("insertion order %v / %v, ShardMax=%d, Parallelism=%d, compound=%v", orderA, orderB, c.shardMax, c.par, c.compound)
